@@ -487,3 +487,22 @@ def register(R):
 
     R.contract(f'{NTE}.submit', props=['C03', 'C04', 'C07'], params=dict(fn=ExtT('task_callable')), top_level=True,
                checks=nte_checks, raises={'KeyboardInterrupt': only_propagates})
+
+    # the future of the non-threaded executor: a done callback added to a finished future runs at once (this is how the permit of
+    # BoundedExecutor.submit is released and how a task future is untracked when use_threads=False: C04 / C10); result() re-raises
+    R.external('done_cb', **{'()': ExtSpec(raises=('Exception',))})
+
+    def ntf_adc_checks(c):
+        runs = [e for e in c.trace if e.kind == 'ext' and e.name == 'done_cb.()']
+        from .spec import b2z
+        was_done = b2z(c.oldf('_done'))
+        lst1 = c.new.obj(c.newf('_done_callbacks')) if isinstance(c.newf('_done_callbacks'), Ref) else None
+        lst0 = c.old.obj(c.oldf('_done_callbacks')) if isinstance(c.oldf('_done_callbacks'), Ref) else None
+        added = lst1 is not None and lst0 is not None and len(lst1.items) == len(lst0.items) + 1 and lst1.items[-1] is c.a_fn
+        same = lst1 is not None and lst0 is not None and list(lst1.items) == list(lst0.items)
+        return {'runs_now_with_the_future_if_already_done_else_is_recorded': (z3.If(
+            was_done, B(len(runs) == 1 and tuple(runs[0].args) == (c.self,) and bool(same)), B(len(runs) == 0 and bool(added))), ['C04', 'C10'])}
+
+    R.contract(f'{NTF}.add_done_callback', props=['C04', 'C10'], params=dict(fn=ExtT('done_cb')), top_level=True,
+               self_type=ObjT(NTF, _done_callbacks=Const(lambda eng, st: st.alloc(HObj('list', items=[])))),
+               checks=ntf_adc_checks, raises={'Exception': only_propagates})
